@@ -428,6 +428,28 @@ def gen_xjoin(rng, big=False):
     return s.text()
 
 
+def gen_replace(rng, big=False):
+    """C06 / C17 (scheduler replacement): a ULT running on a secondary stream replaces the stream's main scheduler
+    (ABT_xstream_set_main_sched_basic over a fresh pool) - before or after somebody has asked to join the stream; the
+    join must still return, and only after the ULT has finished"""
+    s = Scn(rng, 1, [(rng.choice(["fifo", "fifo_wait", "randws"]), "mpmc")])
+    s.lines[1] = "WATCHDOG 10"
+    s.es(1, rng.choice(["basic", "default", "prio", "randws", "basic_wait"]), [0])
+    newp = s.add_pool(rng.choice(["fifo", "fifo_wait"]), "mpmc")
+    late = rng.random() < 0.6
+    pre = [rng.choice(["W", "Y"]) for _ in range(rng.randint(0, 2))]
+    post = [rng.choice(["W", "Y", "Y"]) for _ in range(rng.randint(0, 4))]
+    u = s.unit("U", "N", 0, pre + (["q1"] if late else []) + ["z1:%d" % newp] + post)
+    s.main += ["C%d" % u]
+    if late:
+        # the join request is posted first, the replacement comes second
+        s.ext.append(["j1"])
+        s.main += ["F%d" % u]
+    else:
+        s.main += ["Y"] * rng.randint(0, 3) + ["F%d" % u]
+    return s.text()
+
+
 def gen_f6(rng, big=False):
     """finding F6: a second migration request issued while the first one is being handled (between the handler's read
     of the target and its clearing of the request bit) is acknowledged with ABT_SUCCESS and never performed"""
